@@ -60,7 +60,7 @@ Definition flag_complete_stmt (K : Z) : Prop :=
   forall k, - K <= k <= K -> flag (ang_a k) = true /\ flag (ang_b k) = true.
 
 Theorem flag_complete_K_refuted : exists k, - 4096 <= k <= 4096 /\ flag (ang_a k) = false /\ flag (ang_b k) = false.
-Proof. exists 11. split; [lia|]. split; vm_compute; reflexivity. Qed.
+Proof. exists 11. split; [lia|]. split; [vm_compute; reflexivity | vm_compute; reflexivity]. Qed.
 
 Corollary flag_complete_4096_false : ~ flag_complete_stmt 4096.
 Proof.
@@ -80,7 +80,7 @@ Theorem flag_missed_count :
   Z.of_nat (length (filter (fun k => negb (flag (ang_a k))) (zsym 4096))) = 8086
   /\ Z.of_nat (length (filter (fun k => negb (flag (ang_b k))) (zsym 4096))) = 8086
   /\ Z.of_nat (length (zsym 4096)) = 8193.
-Proof. repeat split; vm_compute; reflexivity. Qed.
+Proof. split; [|split]; vm_compute; reflexivity. Qed.
 
 (* ---- the dispatch at the flagged multiples (bounded sweep): the engine takes the branch of k mod 4 *)
 Definition branch_ok (k : Z) (theta : float) : bool :=
